@@ -434,6 +434,8 @@ def run(ctx):
     traces = check_scenarios(ctx, scs)
     for i in (0, len(traces) // 2, len(traces) - 1):
         ctx.sample(dict(scenario=scs[i], events=traces[i]["events"][:12], n_events=len(traces[i]["events"])))
+    from harness.props import x_round_gate
+    x_round_gate.check_round_gate(ctx)      # extension: round / acquisition gating of ModelBased (BSL, BOLFIRE) and BayesianOptimization (E: clauses, drift only)
 
 
 def replay(ctx, scenario):
